@@ -22,6 +22,7 @@ func init() {
 			"LP-PIPE entryIterator.Next: a record that was read reaches the prefilter before the next is read; the record body is a copy of the frame buffer",
 			"PV-PURE Aggregate(points) writes nothing into its receiver; eviction runs on every path that reports a step",
 			"PV-ROLE batchApplier returns agg.Result(); PV-GUARD range/vector iterators end only on the stepper's / source's verdict",
+			"PV-ROLE first/last_over_time report points[0] / points[len-1] (arrival order)",
 		},
 		NotDecided: []string{"numeric results of the aggregators (Welford, quantile interpolation)", "that the storage delivers samples in time order", "equality instant = range at T beyond the shared code path"},
 		Rules: func(r *Run) {
@@ -49,6 +50,7 @@ func init() {
 			ruleBatchAggregatorsStateless(r)
 			ruleBatchApplierAlwaysAggregates(r)
 			ruleIterEndsWithSource(r)
+			ruleFirstLastPositional(r)
 		},
 	})
 }
